@@ -1,7 +1,177 @@
-//! C09 — TODO
-use mc_core::Ctx;
+//! C09 — Merkle membership proofs cannot vouch for anything outside the committed set.
+//!
+//! Bounded exhaustive enumeration on the real code of three structures:
+//!  1. the STM signer-registration tree (source-included, byte-string leaves)          → c09_stm.rs
+//!  2. the generic `MKTree` / `MKProof`                                                → c09_mk.rs
+//!  3. the nested `MKMap` / `MKMapProof` and `MkSetProof` on top of it                  → c09_map.rs
+//!
+//! Oracle everywhere: honest proofs verify; a proof that verifies against the commitment states
+//! only true things about the committed list(s).  Never "a mutant must be rejected".
 
-pub fn run(_ctx: &Ctx) -> ! {
-    eprintln!("C09: not implemented");
-    std::process::exit(2)
+use mc_core::{Ctx, Report, par_map};
+use serde_json::json;
+
+use crate::c09_agg as agg;
+use crate::c09_map as map;
+use crate::c09_mk as mk;
+use crate::c09_stm as stm;
+
+/// jobs are listed largest-first (load balance); merging in reverse keeps the smallest
+/// counterexample of every classifier key
+fn merge_rev(rep: &mut Report, parts: Vec<Report>) {
+    for p in parts.into_iter().rev() {
+        rep.merge(p);
+    }
+}
+
+pub fn run(ctx: &Ctx) -> ! {
+    let mut rep = Report::new(
+        "exploration",
+        "TODO",
+    );
+    if let Some(path) = &ctx.replay {
+        let v = mc_core::load_replay(path);
+        match v["part"].as_str().unwrap_or("") {
+            "stm" | "stm-honest" => stm::replay(&mut rep, &v),
+            "stm-aggregate" | "stm-aggregate-honest" => agg::replay(&mut rep, &v),
+            "mkproof" | "mkproof-honest" => mk::replay(&mut rep, &v),
+            "mkmap" | "mkmap-honest" => map::replay(&mut rep, &v),
+            other => {
+                eprintln!("unknown replay part {other}");
+                std::process::exit(2);
+            }
+        }
+        rep.nontrivial(&0);
+        rep.nontrivial(&1);
+        rep.finish(ctx);
+    }
+    let threads = ctx.threads();
+
+    // ---- part 1: STM tree ------------------------------------------------------------------
+    let (stm_n_honest, stm_n_single, stm_n_pairs) = ctx.tier.pick((10usize, 6usize, 0usize), (16, 8, 5));
+    rep.extra("stm_bounds", json!({"honest_all_subsets_up_to_n": stm_n_honest, "single_mutations_up_to_n": stm_n_single, "paired_mutations_up_to_n": stm_n_pairs}));
+    // honest: split the big sizes so that threads share the work
+    let sizes: Vec<usize> = (1..=stm_n_honest).rev().collect();
+    merge_rev(&mut rep, par_map(&sizes, threads, |_, &n| stm::honest_sweep(n)));
+    let mut jobs: Vec<(usize, u32, usize)> = vec![];
+    for n in (1..=stm_n_single).rev() {
+        for mask in 1u32..(1u32 << n) {
+            jobs.push((n, mask, if n <= stm_n_pairs { 2 } else { 1 }));
+        }
+    }
+    jobs.sort_by_key(|j| std::cmp::Reverse(j.2));
+    merge_rev(&mut rep, par_map(&jobs, threads, |_, &(n, mask, depth)| stm::mutation_sweep(n, mask, depth)));
+    let sizes: Vec<usize> = (1..=stm_n_single).rev().collect();
+    merge_rev(&mut rep, par_map(&sizes, threads, |_, &n| stm::cross_commitment_sweep(n)));
+    // designed forgeries: claims anywhere in the extended position range with the forger's best path
+    let (forge_n, forge_claims, brute_n) = ctx.tier.pick((10usize, 2usize, 3usize), (16, 3, 5));
+    rep.extra("stm_forger_bounds", json!({"up_to_n": forge_n, "max_claims": forge_claims, "brute_force_single_claim_up_to_n": brute_n}));
+    let mut jobs: Vec<(usize, bool)> = vec![];
+    for n in (1..=forge_n).rev() {
+        jobs.push((n, true));
+    }
+    for n in (1..=forge_n).rev() {
+        jobs.push((n, false));
+    }
+    merge_rev(&mut rep, par_map(&jobs, threads, |_, &(n, node_like)| stm::forger_sweep(n, if n <= 4 { forge_claims + 1 } else if n <= 8 { forge_claims } else { 2 }, node_like)));
+    let mut jobs: Vec<(usize, usize)> = vec![];
+    for n in (1..=brute_n).rev() {
+        for index in 0..(2 * n.next_power_of_two() + 2) {
+            jobs.push((n, index));
+        }
+    }
+    merge_rev(&mut rep, par_map(&jobs, threads, |_, &(n, index)| stm::brute_force_single_claim(n, index)));
+    eprintln!("[C09] part 1 (STM tree, source-included) done at {:.1}s", ctx.elapsed_s());
+    // ---- part 1b: the same tree through registration → clerk → AggregateSignature::verify ----
+    let (agg_n, agg_pairs_n) = ctx.tier.pick((3usize, 0usize), (4, 2));
+    rep.extra("stm_aggregate_bounds", json!({"registrations_up_to_parties": agg_n, "all_signer_subsets": true, "paired_mutations_up_to_parties": agg_pairs_n}));
+    let mut jobs: Vec<(usize, u32)> = vec![];
+    for n in (1..=agg_n).rev() {
+        for mask in (1u32..(1u32 << n)).rev() {
+            jobs.push((n, mask));
+        }
+    }
+    jobs.sort_by_key(|j| std::cmp::Reverse(if j.0 <= agg_pairs_n { 1 } else { 0 }));
+    merge_rev(&mut rep, par_map(&jobs, threads, |_, &(n, mask)| agg::sweep_one(n, mask, if n <= agg_pairs_n { 2 } else { 1 })));
+
+    eprintln!("[C09] part 1b (aggregate signature seam) done at {:.1}s", ctx.elapsed_s());
+    // ---- part 2: MKTree / MKProof -----------------------------------------------------------
+    let (mk_n_honest, mk_n_single, mk_n_pairs, mk_n_frontier) = ctx.tier.pick((10usize, 6usize, 0usize, 8usize), (16, 8, 4, 12));
+    rep.extra("mkproof_bounds", json!({"honest_all_subsets_up_to_n": mk_n_honest, "single_mutations_up_to_n": mk_n_single, "paired_mutations_up_to_n": mk_n_pairs, "frontier_forgeries_up_to_n": mk_n_frontier}));
+    let sizes: Vec<usize> = (1..=mk_n_honest).rev().collect();
+    merge_rev(&mut rep, par_map(&sizes, threads, |_, &n| mk::honest_sweep(n)));
+    let mut jobs: Vec<(usize, u32, usize)> = vec![];
+    for n in (1..=mk_n_single).rev() {
+        for mask in 1u32..(1u32 << n) {
+            jobs.push((n, mask, if n <= mk_n_pairs { 2 } else { 1 }));
+        }
+    }
+    jobs.sort_by_key(|j| std::cmp::Reverse(j.2));
+    merge_rev(&mut rep, par_map(&jobs, threads, |_, &(n, mask, depth)| mk::mutation_sweep(n, mask, depth)));
+    let sizes: Vec<usize> = (1..=mk_n_frontier).rev().collect();
+    merge_rev(&mut rep, par_map(&sizes, threads, |_, &n| mk::frontier_sweep(n)));
+    let sizes: Vec<usize> = (1..=mk_n_single).rev().collect();
+    merge_rev(&mut rep, par_map(&sizes, threads, |_, &n| mk::cross_root_sweep(n)));
+    eprintln!("[C09] part 2 (MKTree/MKProof) done at {:.1}s", ctx.elapsed_s());
+    // ---- part 3: MKMap / MKMapProof / MkSetProof --------------------------------------------
+    let (map_r, map_s, mut_total, pair_total) = ctx.tier.pick((3usize, 3usize, 4usize, 0usize), (4, 3, 6, 3));
+    let mut structures: Vec<map::RefNode> = vec![];
+    fn size_vectors(r: usize, s: usize) -> Vec<Vec<usize>> {
+        let mut out = vec![vec![]];
+        for _ in 0..r {
+            let mut next = vec![];
+            for v in &out {
+                for x in 1..=s {
+                    let mut w = v.clone();
+                    w.push(x);
+                    next.push(w);
+                }
+            }
+            out = next;
+        }
+        out
+    }
+    for r in 1..=map_r {
+        for sizes in size_vectors(r, map_s) {
+            structures.push(map::flat(&sizes, 0, 0));
+            // the same with one range stored as a bare root (not provable)
+            if r >= 2 {
+                for c in 0..r {
+                    structures.push(map::flat(&sizes, 1 << c, 0));
+                }
+            }
+        }
+    }
+    for a in size_vectors(2, 2) {
+        for b in size_vectors(1, 2).into_iter().chain(size_vectors(2, 2)) {
+            structures.push(map::nested(&[a.clone(), b.clone()]));
+        }
+    }
+    structures.push(map::nested(&[vec![1], vec![1]]));
+    structures.push(map::nested(&[vec![2]]));
+    structures.push(map::nested(&[vec![1], vec![2], vec![1, 1]]));
+    rep.extra("mkmap_bounds", json!({"flat_maps_up_to_ranges": map_r, "leaves_per_range_up_to": map_s, "structures": structures.len(), "single_mutations_up_to_total_items": mut_total, "paired_mutations_up_to_total_items": pair_total}));
+    let parts = par_map(&structures, threads, |_, st| map::honest_sweep(st));
+    for p in parts {
+        rep.merge(p);
+    }
+    let mut jobs: Vec<(usize, u32, usize)> = vec![];
+    for (si, st) in structures.iter().enumerate() {
+        let mut items = vec![];
+        st.bottom_items(true, &mut items);
+        let mut all = vec![];
+        st.bottom_items(false, &mut all);
+        if all.len() <= mut_total && !items.is_empty() {
+            for mask in 1u32..(1u32 << items.len()) {
+                jobs.push((si, mask, if all.len() <= pair_total { 2 } else { 1 }));
+            }
+        }
+    }
+    rep.extra("mkmap_mutated_honest_proofs", json!(jobs.len()));
+    jobs.sort_by_key(|j| std::cmp::Reverse(j.2));
+    for p in par_map(&jobs, threads, |_, &(si, mask, depth)| map::mutation_sweep(&structures[si], mask, depth)) {
+        rep.merge(p);
+    }
+    eprintln!("[C09] part 3 (MKMap/MKMapProof/MkSetProof) done at {:.1}s", ctx.elapsed_s());
+    rep.finish(ctx)
 }
